@@ -185,6 +185,10 @@ pub struct SigScenario {
     pub index: u64,
     /// pairs grouped into injector lifetimes (seeded order and grouping)
     pub lifetimes: Vec<Vec<Pair>>,
+    /// every lifetime runs inside a destructor while another panic is unwinding the thread
+    /// (a fixture that installs its fakes from `Drop`)
+    #[serde(default)]
+    pub unwinding: bool,
     pub classes: Vec<String>,
 }
 
@@ -226,8 +230,11 @@ pub fn generate(profile: &str, seed: u64, index: u64) -> SigScenario {
     if !cur.is_empty() {
         lifetimes.push(cur);
     }
-    let classes = vec![format!("block{}", index as usize % ((total + BLOCK - 1) / BLOCK))];
-    SigScenario { engine: "N".into(), family: "sigs".into(), profile: profile.into(), variant: "x86_64-linux-native".into(), seed, index, lifetimes, classes }
+    // every second sweep over the blocks is made while the thread is unwinding
+    let nblocks = (total + BLOCK - 1) / BLOCK;
+    let unwinding = (index as usize / nblocks) % 2 == 1;
+    let classes = vec![format!("block{}{}", index as usize % nblocks, if unwinding { "-while-unwinding" } else { "" })];
+    SigScenario { engine: "N".into(), family: "sigs".into(), profile: profile.into(), variant: "x86_64-linux-native".into(), seed, index, lifetimes, unwinding, classes }
 }
 
 fn panic_msg(p: &Box<dyn std::any::Any + Send>) -> String {
@@ -254,7 +261,18 @@ pub fn execute(sc: &SigScenario, sh: &Shared) -> Value {
     let mut refused = 0u64;
     let mut not_judged = 0u64;
     let mut faults: std::collections::BTreeMap<String, u64> = Default::default();
+    struct InDrop<F: FnMut()>(Option<F>);
+    impl<F: FnMut()> Drop for InDrop<F> {
+        fn drop(&mut self) {
+            if let Some(mut f) = self.0.take() {
+                f()
+            }
+        }
+    }
+    struct Outer;
+    let mut in_unwind = 0u64;
     for (li, lt) in sc.lifetimes.iter().enumerate() {
+      let mut body = || {
         let mut inj = InjectorPP::new();
         let mut faked_here: Vec<usize> = Vec::new();
         for (pi, p) in lt.iter().enumerate() {
@@ -347,6 +365,21 @@ pub fn execute(sc: &SigScenario, sh: &Shared) -> Value {
         for t in faked_here {
             let _ = t;
         }
+      };
+        if sc.unwinding {
+            in_unwind += 1;
+            let r = catch_unwind(AssertUnwindSafe(|| {
+                let _g = InDrop(Some(&mut body));
+                std::panic::panic_any(Outer);
+            }));
+            match r {
+                Err(p) if p.is::<Outer>() => {}
+                Err(p) => v("unexpected-panic-escaped-the-fixture", &["C09"], format!("lifetime {li}: {}", panic_msg(&p))),
+                Ok(()) => {}
+            }
+        } else {
+            body();
+        }
         if !viol.borrow().is_empty() {
             break;
         }
@@ -355,7 +388,7 @@ pub fn execute(sc: &SigScenario, sh: &Shared) -> Value {
     json!({
         "violations": viol.into_inner(),
         "digest": format!("{:016x}", digest),
-        "probes": {"pairs_not_judged_lifetime_only": not_judged, "pairs_accepted": accepted},
+        "probes": {"pairs_not_judged_lifetime_only": not_judged, "pairs_accepted": accepted, "lifetimes_run_while_unwinding": in_unwind},
         "faults": faults,
         "events": accepted + refused + not_judged,
         "calls": 0,
